@@ -283,6 +283,14 @@ func (db *MultiBucketBackend) DeleteBucket(name string) (rerr error) {
 	db.lock.Lock()
 	defer db.lock.Unlock()
 
+	// Names like "." resolve to a directory too (the bucket root itself), but
+	// they are not buckets:
+	if exists, err := db.bucketExistsLocked(name); err != nil {
+		return err
+	} else if !exists {
+		return gofakes3.BucketNotFound(name)
+	}
+
 	entries, err := afero.ReadDir(db.bucketFs, name)
 	if os.IsNotExist(err) {
 		return gofakes3.BucketNotFound(name)
@@ -319,6 +327,13 @@ func (db *MultiBucketBackend) DeleteBucket(name string) (rerr error) {
 func (db *MultiBucketBackend) ForceDeleteBucket(name string) error {
 	db.lock.Lock()
 	defer db.lock.Unlock()
+
+	// See DeleteBucket: emptying "." would empty every bucket.
+	if exists, err := db.bucketExistsLocked(name); err != nil {
+		return err
+	} else if !exists {
+		return gofakes3.BucketNotFound(name)
+	}
 
 	// Delete all objects in the bucket
 	entries, err := afero.ReadDir(db.bucketFs, name)
